@@ -480,9 +480,9 @@ def r057(prog, chk):
         chk.ob("R05.7", f"{f.short}|base-base -> base list; the three mark combinations -> mark list, each once", got == want and len(combos) == 4, where(f), detail=str(sorted(got)),
                message=f"{f.short}: the base/mark split no longer keeps each of the four side combinations exactly once (got {sorted(got)}): pairs are lost or duplicated")
         for c in [c for c in A.body_nodes(f.node) if isinstance(c, ast.Call) and A.callee_name(c) == "KerningPair"]:
-            iff = [a_ for a_ in ix.ancestors(c) if isinstance(a_, ast.If)]
-            ok = bool(iff) and isinstance(iff[0].test, ast.BoolOp) and isinstance(iff[0].test.op, ast.And) and {T(v) for v in iff[0].test.values} == {T(c.args[0]), T(c.args[1])}
-            chk.ob("R05.7", f"{f.short}|{A.keytext(f.node, c)}|guarded by both of its sides being non-empty", ok, where(f, c), detail=T(iff[0].test) if iff else "",
+            fs_ = facts(prog, f, c)
+            ok = all(any(o == "truthy" and l == T(a_) for o, l, r in fs_) for a_ in c.args[:2])
+            chk.ob("R05.7", f"{f.short}|{A.keytext(f.node, c)}|guarded by both of its sides being non-empty", ok, where(f, c), detail=str(sorted(x for x in fs_ if x[0] == "truthy")),
                    message=f"{f.short}: a split pair is created although one of its sides may be empty / under the wrong guard")
     chk.minimum("R05.7", 14)
 
